@@ -85,6 +85,7 @@ fn run_one<C: GenericConfig<D, F = F>>(
     strategies: &[String],
     max_cells: usize,
     selftest: bool,
+    full: usize,
 ) -> Vec<Value> {
     let mut out = vec![];
     let id = s["id"].clone();
@@ -259,7 +260,7 @@ fn run_one<C: GenericConfig<D, F = F>>(
         cors = keep;
     }
     let nch = common.config.num_challenges;
-    for c in &cors {
+    for (ci, c) in cors.iter().enumerate() {
         let mut a = a0.clone();
         for (t, v) in &c.edits {
             a.values[*t] = *v;
@@ -271,6 +272,12 @@ fn run_one<C: GenericConfig<D, F = F>>(
                 continue;
             }
             if c.kind == "none" && st != "plain" {
+                continue;
+            }
+            // every corruption meets the plain prover; the degenerate strategies rotate over the
+            // corruptions (all of them on every `full`-th one) to bound the number of proofs
+            let others: Vec<&String> = strategies.iter().filter(|x| x.as_str() != "plain").collect();
+            if st != "plain" && !others.is_empty() && ci % full != 0 && others[ci % others.len()] != st {
                 continue;
             }
             let Some(k) = knobs_for(st, nch) else { continue };
@@ -312,6 +319,7 @@ fn run(args: &[String]) -> anyhow::Result<()> {
     let inp = opt(args, "--in").ok_or_else(|| anyhow::anyhow!("--in"))?;
     let max_cells = opt_usize(args, "--cells", 24);
     let selftest = args.iter().any(|a| a == "--selftest");
+    let full = opt_usize(args, "--full-every", 5).max(1);
     let mut r = rng(2);
     for s in read_lines(inp)? {
         let prog: Program = serde_json::from_value(s["prog"].clone())?;
@@ -324,9 +332,9 @@ fn run(args: &[String]) -> anyhow::Result<()> {
             _ => classes.iter().map(|c| concretize(c, &mut r)).collect(),
         };
         let rows = if cfg.keccak {
-            run_one::<KeccakGoldilocksConfig>(&s, &prog, &cfg, &inputs, &kinds, &strategies, max_cells, selftest)
+            run_one::<KeccakGoldilocksConfig>(&s, &prog, &cfg, &inputs, &kinds, &strategies, max_cells, selftest, full)
         } else {
-            run_one::<PoseidonGoldilocksConfig>(&s, &prog, &cfg, &inputs, &kinds, &strategies, max_cells, selftest)
+            run_one::<PoseidonGoldilocksConfig>(&s, &prog, &cfg, &inputs, &kinds, &strategies, max_cells, selftest, full)
         };
         for mut row in rows {
             row["concrete"] = json!(inputs);
